@@ -96,8 +96,11 @@ def read_groundwater_table(
                     depth = df["Depth(mm)"].iloc[row]
                     z_gw.loc[date] = depth
 
-                # Interpolate daily groundwater depths
-                z_gw = z_gw.interpolate()
+                # Interpolate daily groundwater depths between the observation dates
+                # (observations outside the simulation period take part by their date;
+                # the first/last observed depth is held before/after the observations)
+                z_gw = z_gw.sort_index().interpolate(method="time").bfill()
+                z_gw = z_gw.reindex(ClockStruct.time_span)
 
         # assign values to Paramstruct object
         ParamStruct.z_gw = z_gw.values
